@@ -9,6 +9,7 @@ import Driver.C07
 import Driver.C09
 import Driver.C14
 import Driver.C19
+import Driver.C05
 
 open Driver Relic.Model
 
@@ -38,7 +39,7 @@ def dispatch (c : Conf) (op : String) (args : List String) (got : String) : Opti
     | some e => C02.handle e op args got
     | none => none) <|> (match c.ep with
     | some e => C03.handle e c.w op args got
-    | none => none) <|> (C07.handle e01.cfg op args) <|> (C09.handle c.w c.size c.digs op args got) <|> (C14.handle op args) <|> (C15.handle c.w c.size op args got) <|> (C19.handle latch op args)
+    | none => none) <|> (C07.handle e01.cfg op args) <|> (C09.handle c.w c.size c.digs op args got) <|> (C14.handle op args) <|> (C15.handle c.w c.size op args got) <|> (C19.handle latch op args) <|> (C05.handle c.ep c.w op args got)
 
 def processLine (c : Conf) (line : String) : String :=
   match line.splitOn " => " with
